@@ -131,10 +131,23 @@ void g_string_printf(GString *string, const gchar *format, ...) {
 	string->allocated_len = n + 1;
 }
 
+/* ---------------- container lock tags (C10 obligation 2; -DVERIF_LOCK_TAGS) ----------------
+ * The node state table is the library's only hash table: every access must hold bidib_node_state_table_mutex.
+ * A GQueue created while that mutex is held is a per-node queue and inherits the tag; the three uplink queues are
+ * tagged by the harness (verif_queue_tag).  Tags are checked only while verif_tags_armed (the harness arms them around
+ * the library step, so that building the pre-state and reading the post-state are not flagged). */
+bool verif_tags_armed;
+#ifdef VERIF_LOCK_TAGS
+#define TAG_CHECK(lock, what) do { if (verif_tags_armed && (lock) >= 0) __CPROVER_assert(verif_held(lock), "CONTRACT: " what " accessed without its guarding lock held"); } while (0)
+#else
+#define TAG_CHECK(lock, what) do { } while (0)
+#endif
+
 /* ---------------- GQueue ---------------- */
 /* ring buffer: pop is O(1) (no shifting), so that the 128-entry uplink queues stay cheap */
 typedef struct {
 	GQueue pub;            /* only pub.length is meaningful */
+	int tag;               /* guarding lock id, -1 = untagged */
 	guint first;
 	gpointer it[VERIF_QCAP];
 } VQueue;
@@ -143,23 +156,28 @@ static guint v_wrap(guint i) { return i >= VERIF_QCAP ? i - VERIF_QCAP : i; }
 GQueue *g_queue_new(void) {
 	VQueue *q = malloc(sizeof(VQueue));
 	q->pub.head = NULL; q->pub.tail = NULL; q->pub.length = 0; q->first = 0;
+	q->tag = verif_held(L_NODE_TABLE) ? L_NODE_TABLE : -1;
 	return &q->pub;
 }
 void g_queue_free(GQueue *queue) { free(queue); }
-gboolean g_queue_is_empty(GQueue *queue) { return queue->length == 0; }
-guint g_queue_get_length(GQueue *queue) { return queue->length; }
+void verif_queue_tag(GQueue *queue, int lock) { ((VQueue *)queue)->tag = lock; }
+gboolean g_queue_is_empty(GQueue *queue) { TAG_CHECK(((VQueue *)queue)->tag, "queue"); return queue->length == 0; }
+guint g_queue_get_length(GQueue *queue) { TAG_CHECK(((VQueue *)queue)->tag, "queue"); return queue->length; }
 void g_queue_push_tail(GQueue *queue, gpointer data) {
 	VQueue *q = (VQueue *)queue;
+	TAG_CHECK(q->tag, "queue");
 	__CPROVER_assume(q->pub.length < VERIF_QCAP); /* bound: queue capacity */
 	q->it[v_wrap(q->first + q->pub.length)] = data;
 	q->pub.length++;
 }
 gpointer g_queue_peek_head(GQueue *queue) {
 	VQueue *q = (VQueue *)queue;
+	TAG_CHECK(q->tag, "queue");
 	return q->pub.length == 0 ? NULL : q->it[q->first];
 }
 gpointer g_queue_pop_head(GQueue *queue) {
 	VQueue *q = (VQueue *)queue;
+	TAG_CHECK(q->tag, "queue");
 	if (q->pub.length == 0) return NULL;
 	gpointer r = q->it[q->first];
 	q->first = v_wrap(q->first + 1);
@@ -169,6 +187,7 @@ gpointer g_queue_pop_head(GQueue *queue) {
 static GList verif_find_cell;
 GList *g_queue_find_custom(GQueue *queue, gconstpointer data, GCompareFunc func) {
 	VQueue *q = (VQueue *)queue;
+	TAG_CHECK(q->tag, "queue");
 	for (guint i = 0; i < VERIF_QCAP; i++) {
 		if (i < q->pub.length && func(q->it[v_wrap(q->first + i)], data) == 0) {
 			verif_find_cell.data = q->it[v_wrap(q->first + i)];
@@ -220,12 +239,14 @@ GHashTable *g_hash_table_new(GHashFunc h, GEqualFunc e) {
 }
 void g_hash_table_destroy(GHashTable *t) { free(t); }
 gpointer g_hash_table_lookup(GHashTable *t, gconstpointer key) {
+	TAG_CHECK(L_NODE_TABLE, "node state table");
 	for (int i = 0; i < VERIF_HCAP; i++) {
 		if (t->used[i] && v_str_equal(t->key[i], key)) return t->val[i];
 	}
 	return NULL;
 }
 gboolean g_hash_table_insert(GHashTable *t, gpointer key, gpointer value) {
+	TAG_CHECK(L_NODE_TABLE, "node state table");
 	for (int i = 0; i < VERIF_HCAP; i++) {
 		if (t->used[i] && v_str_equal(t->key[i], key)) { t->val[i] = value; return FALSE; }
 	}
@@ -245,6 +266,7 @@ void g_hash_table_iter_init(GHashTableIter *iter, GHashTable *t) {
 	VIter *it = (VIter *)iter; it->t = t; it->pos = -1;
 }
 gboolean g_hash_table_iter_next(GHashTableIter *iter, gpointer *key, gpointer *value) {
+	TAG_CHECK(L_NODE_TABLE, "node state table");
 	VIter *it = (VIter *)iter;
 	for (int i = 0; i < VERIF_HCAP; i++) {
 		if (i > it->pos && it->t->used[i]) {
